@@ -20,10 +20,6 @@ import (
 	"verif/harness/vstats"
 )
 
-const (
-	f11Key = "zstd-write-fault-masked-after-last-content-byte"
-)
-
 // verdicts of the reference model for one upload
 const (
 	vValid   = iota // must be stored and acknowledged
@@ -102,9 +98,9 @@ func classify(c *wcase) (int, string, int64) {
 	}
 	if c.zc && c.tampered {
 		// The compressed stream itself was cut, extended or corrupted.
-		// Whether the decoder notices depends on where (e.g. a frame cut
-		// after its last content byte still yields all the data, and the
-		// buffer layer verifies size and hash of what was decoded), so
+		// Whether the streaming decoder notices depends on where (fewer
+		// than four stray bytes at the end read as end of stream), and the
+		// buffer layer verifies size and hash of what was decoded, so
 		// neither direction is asserted; "stored => digest-correct" is.
 		return vWeak, "tampered compressed stream", 0
 	}
@@ -115,13 +111,13 @@ func classify(c *wcase) (int, string, int64) {
 		if err != nil {
 			// The oracle's whole-buffer decoder rejects the bytes sent up to
 			// finish_write (e.g. finish_write in the middle of a frame). The
-			// server's streaming decoder is more lenient about truncated
-			// tails (fewer than four stray bytes read as end of stream; a
-			// frame cut after its last content byte still yields everything)
-			// and the buffer layer then verifies size and hash of what was
-			// decoded. Acceptance is therefore possible exactly when the
-			// recovered bytes match the digest, which the unconditional
-			// clauses below check; no direction is asserted here.
+			// server's streaming decoder is more lenient about tails (fewer
+			// than four stray bytes read as end of stream, so a one-byte
+			// "stream" is the empty object) and the buffer layer then
+			// verifies size and hash of what was decoded. Acceptance is
+			// therefore possible exactly when the recovered bytes match the
+			// digest, which the unconditional clauses check; no direction
+			// is asserted here.
 			return vWeak, "compressed stream does not decode with the oracle's decoder: " + err.Error(), 0
 		}
 		if !bytes.Equal(dec, c.want) {
@@ -371,7 +367,7 @@ var recWrite = vstats.New("TestC14Write")
 
 // runWrite feeds the upload to a fresh real ByteStream server over a
 // model back end and checks the outcome against the reference model.
-func runWrite(t *rapid.T, c *wcase, kf digest.KeyFormat, poolIdx int, vc *vstats.Case, f11known bool, rec *vstats.Recorder) {
+func runWrite(t *rapid.T, c *wcase, kf digest.KeyFormat, poolIdx int, vc *vstats.Case) {
 	mem := backends.NewMem("cas", kf)
 	mem.MaxSize = 1 << 20
 	// Unrelated objects that must stay untouched.
@@ -433,17 +429,6 @@ func runWrite(t *rapid.T, c *wcase, kf digest.KeyFormat, poolIdx int, vc *vstats
 		vc.Class("accepted")
 	case vInvalid:
 		if err == nil {
-			// Exactly the shape of finding F11: the bytes sent before the
-			// fault already contain the complete contents; the fault
-			// (wrong offset, missing finish_write, transport error) hits
-			// while the decoder is inside trailing material, where it
-			// reports io.ErrUnexpectedEOF, which casValidatingReader takes
-			// for the end of the stream.
-			if c.zc && f11known && contentCompleteInPrefix(c) {
-				rec.Excluded(f11Key)
-				vc.Class("excluded_f11")
-				return
-			}
 			t.Fatalf("upload that must fail (%s) was stored and acknowledged (committed_size=%d): %s",
 				reason, stream.responses[0].CommittedSize, c)
 		}
@@ -470,10 +455,6 @@ func runWrite(t *rapid.T, c *wcase, kf digest.KeyFormat, poolIdx int, vc *vstats
 
 // TestC14Write: ByteStream.Write over fake streams.
 func TestC14Write(t *testing.T) {
-	f11known := vstats.KnownListed("C14", f11Key)
-	if f11known {
-		probeF11()
-	}
 	rapid.Check(t, func(t *rapid.T) {
 		vc := recWrite.Begin()
 		c := genWrite(t, 3000)
@@ -511,41 +492,7 @@ func TestC14Write(t *testing.T) {
 			vc.Class("mut_" + strings.SplitN(m, ":", 2)[0])
 		}
 		vc.Sample(func() string { return c.String() })
-		runWrite(t, c, kf, poolIdx, vc, f11known, recWrite)
+		runWrite(t, c, kf, poolIdx, vc)
 		vc.End()
 	})
-}
-
-// contentCompleteInPrefix reports whether some prefix of the bytes of the
-// upload decodes to the digest's contents.
-func contentCompleteInPrefix(c *wcase) bool {
-	var all []byte
-	for _, m := range c.msgs {
-		all = append(all, m.data...)
-	}
-	for p := 0; p <= len(all); p++ {
-		if dec, err := zDecode(all[:p]); err == nil && bytes.Equal(dec, c.want) {
-			return true
-		}
-	}
-	return false
-}
-
-// probeF11 is the dedicated probe for the listed finding: a complete
-// frame followed by a skippable frame whose last byte arrives with a
-// wrong write_offset.
-func probeF11() {
-	x := append(zEncodeStream(0, nil, 1), 0x50, 0x2a, 0x4d, 0x18, 1, 0, 0, 0, 0xaa)
-	d := mkDigest("", fnSHA256, nil)
-	mem := backends.NewMem("cas", digest.KeyWithoutInstance)
-	srv := grpcservers.NewByteStreamServer(mem, 1<<16, pools()[0])
-	stream := &fakeWriteStream{ctx: context.Background(), end: io.EOF, msgs: []wmsg{
-		{name: writeName("", fixedUUID, true, fnSHA256, d.GetHashString(), "0"), off: 0, data: x[:len(x)-1]},
-		{off: int64(len(x)), data: x[len(x)-1:], finish: true},
-	}}
-	if err := srv.Write(stream); err == nil && mem.Has(d) {
-		what := fmt.Sprintf("compressed upload whose second message has write_offset=%d instead of %d (inside a trailing skippable frame) stored and acknowledged", len(x), len(x)-1)
-		recWrite.KnownFinding(f11Key, what)
-		fmt.Printf("KNOWN-FINDING: property=C14 key=%s %s\n", f11Key, what)
-	}
 }
